@@ -328,6 +328,61 @@ def directed_case(ctx, which, kind, prefix):
             check_fetch(ctx, reader, r, kind, witness)
 
 
+def two_writers_and_odd_ids(ctx, kind, prefix):
+    """(a) Two handles on one store each fetch recording X; the second adds metadata and saves; the first then saves its own (older) copy,
+    with or without new data: whatever was saved last is what both views show - the full recording and the metadata fetched on its own.
+    (b) Never-saved ids of unusual shape (hundreds of characters, a NUL, a name that exists as a directory next to the recordings)."""
+    import os
+    from playback.exceptions import NoSuchRecording
+    witness = {'directed': 'two_writers_and_odd_ids', 'kind': kind, 'prefix': prefix}
+    with open_box(kind, prefix=prefix) as box:
+        cas = box.cassette
+        rec = cas.create_new_recording('Op')
+        rec.set_data('k', [1, 2])
+        rec.add_metadata({'owner': 'first', 'n': 1})
+        cas.save_recording(rec)
+        if kind == 's3':
+            w1 = box.fake.cassette('writer1', key_prefix=prefix, read_only=False)
+            w2 = box.fake.cassette('writer2', key_prefix=prefix, read_only=False)
+        elif kind == 'file':
+            from playback.tape_cassettes.file_based.file_based_tape_cassette import FileBasedTapeCassette
+            w1, w2 = FileBasedTapeCassette(cas.directory), FileBasedTapeCassette(cas.directory)
+        else:
+            w1 = w2 = cas
+        for add_data in (False, True):
+            mine = w1.get_recording(rec.id)
+            theirs = w2.get_recording(rec.id)
+            theirs.add_metadata({'reviewed_by': 'second writer', 'round': add_data})
+            w2.save_recording(theirs)
+            if add_data:
+                mine['late'] = 'added by the first writer'
+            w1.save_recording(mine)
+            ctx.case(dict(witness, add_data=add_data))
+            ctx.count('two_writer_histories')
+            model = {'id': rec.id, 'model': (fresh({k: mine.get_data(k) for k in mine.get_all_keys()}), fresh(dict(mine.get_metadata())))}
+            check_fetch(ctx, box.reader(), model, kind, dict(witness, add_data=add_data))
+        # ---- odd never-saved ids
+        reader = box.reader()
+        odd = ['x' * 300, u'\u65e5' * 100, 'Op/' + 'y' * 260, 'a\x00b', 'Op/with\x00nul', 'Dir/abc', 'Op/..', '.', '..', 'Op/' + rec.id.split('/')[-1] + '/more', ' ']
+        if kind == 'file':
+            # a folder that has the very name the recording file of id 'Dir/abc' would have
+            os.makedirs(reader._get_recording_file_path('Dir/abc'))
+        for p in odd:
+            for name, call in (('get_recording', reader.get_recording), ('get_recording_metadata', reader.get_recording_metadata)):
+                ctx.count('unknown_id_probes')
+                try:
+                    got = call(p)
+                except NoSuchRecording:
+                    ctx.count('unknown_id_signalled')
+                    continue
+                except Exception as ex:
+                    ctx.violation('%s(never-saved id of unusual shape) on %s cassette raised %s instead of NoSuchRecording' % (name, kind, type(ex).__name__),
+                                  dict(witness, probe=repr(p)[:60], error=repr(ex)[:120]))
+                    continue
+                ctx.violation('%s(never-saved id) on %s cassette returned %s instead of signalling NoSuchRecording' % (name, kind, type(got).__name__),
+                              dict(witness, probe=repr(p)[:60]))
+
+
 def judge_concurrent(ctx, cassette, ids, kind, w):
     from playback.exceptions import NoSuchRecording
     for (i, k), rid in sorted(ids.items()):
@@ -354,6 +409,7 @@ def run(ctx):
         for kind, prefix in CONFIGS:
             for which in ('deep', 'reserved', 'many'):
                 directed_case(ctx, which, kind, prefix)
+            two_writers_and_odd_ids(ctx, kind, prefix)
     n = ctx.budget(300, 10000)
     base = ctx.seed * 1000003 + ctx.shard * 100000
     for i in range(n):
@@ -365,6 +421,8 @@ def run(ctx):
 
 
 def replay(ctx, w):
+    if w.get('directed') == 'two_writers_and_odd_ids':
+        return two_writers_and_odd_ids(ctx, w['kind'], w['prefix'])
     if w.get('directed'):
         return directed_case(ctx, w['directed'], w['kind'], w['prefix'])
     if w.get('concurrent_saves'):
